@@ -1,6 +1,7 @@
 package sim
 
 import (
+	"sort"
 	"fmt"
 	"net"
 	"runtime"
@@ -468,6 +469,25 @@ func (w *SrvWorld) resolveAt(op *Op) int64 {
 				case "perm_deadline":
 					if len(op.At.Of) > 1 {
 						dl, found = w.Mon.M.PermDeadline(a, net.ParseIP(op.At.Of[1]).String())
+					}
+				case "tcp_deadline":
+					// the bind deadline of the n-th peer connection of the allocation (creation order)
+					if len(op.At.Of) > 1 {
+						var n int
+						fmt.Sscanf(op.At.Of[1], "%d", &n)
+						var ts []*mTCP
+						for _, t := range a.TCPs {
+							ts = append(ts, t)
+						}
+						sort.Slice(ts, func(i, j int) bool {
+							if ts[i].Created.Lo != ts[j].Created.Lo {
+								return ts[i].Created.Lo < ts[j].Created.Lo
+							}
+							return ts[i].CID < ts[j].CID
+						})
+						if n >= 0 && n < len(ts) {
+							dl, found = ts[n].Created.Lo+bindTimeoutNS, true
+						}
 					}
 				case "chan_deadline":
 					if len(op.At.Of) > 1 {
